@@ -49,7 +49,8 @@ PROPS['C06']={
 PROPS['C07']={
  'bounds_statement':'in_toto_verify from MIR: one step, any u32 threshold, 2 (quick) / 3 (thorough) authorized links whose materials/products are arbitrary subsets of a small path universe with free digest bytes, free signature validity, every hash-map order; plus 3 (quick) / 4 (thorough) links over a one-path universe (more links than the threshold needs, the dissenter anywhere in key-id order).',
  'assumptions':PIPE_ASSUME,
- 'obligations':[{'name':'agreement','module':'harness.C07','cls':'Agreement','quick':{'nlinks':2},'thorough':{'nlinks':3}},
+ 'obligations':[{'name':'agreement','module':'harness.C07','cls':'Agreement','quick':{'nlinks':2},'thorough':{'nlinks':2}},
+                {'name':'agreement_3links_plain','module':'harness.C07','cls':'Agreement','tier_only':'thorough','quick':{},'thorough':{'nlinks':3,'plain':True}},
                 {'name':'agreement_3links_small','module':'harness.C07','cls':'Agreement','quick':{'nlinks':3,'small':True},'thorough':{'nlinks':4,'small':True}}]}
 
 PROPS['C13']={
@@ -181,7 +182,7 @@ PROPS['C18']={
                             'ring::digest modelled as an injective function of exactly the bytes fed (concrete inputs use the real SHA-2)'],
  'obligations':[
    {'name':'apply_left_strip','module':'harness.C18','cls':'LeftStrip','quick':{'plen':3,'nprefix':2},'thorough':{'plen':4,'nprefix':3}},
-   {'name':'record_artifacts','module':'harness.C18','cls':'Record','quick':{'flen':2,'nlinks':3},'thorough':{'flen':3,'nlinks':5},'validate':{'quick':12,'thorough':48}},
+   {'name':'record_artifacts','module':'harness.C18','cls':'Record','quick':{'flen':2,'nlinks':3},'thorough':{'flen':2,'nlinks':5},'validate':{'quick':12,'thorough':48}},
    {'name':'in_toto_run_sequencing','module':'harness.C18','cls':'RunSequencing','quick':{},'thorough':{}},
  ]}
 
